@@ -115,6 +115,16 @@ impl Report {
                             None => crate::wire::l1(x),
                         }
                     }
+                    6 => {
+                        // outputs of a whole history joined by " | ": each compared at L1, call logs ignored
+                        x.split(" | ")
+                            .map(|part| match part.rfind(" L:") {
+                                Some(i) => crate::wire::l1(&part[..i]),
+                                None => crate::wire::l1(part),
+                            })
+                            .collect::<Vec<_>>()
+                            .join(" | ")
+                    }
                     3 => {
                         // L1 on the result token, call log verbatim
                         match x.split_once(' ') {
